@@ -565,6 +565,42 @@ def varStep {α : Type} (v : SharedVar α) : VarOp α → Option (SharedVar α)
   | .read => some v
   | .assign site x => if site ∈ v.writes then some { v with val := x } else none
 
+/-! ### inventory of package-level variables (regenerated by factgen) and their classes -/
+
+/-- a package-level variable of an anchored package with what the source does to it outside its
+declaration / `init` -/
+structure PkgVar where
+  pkg : String
+  name : String
+  exported : Bool
+  kind : String             -- error-value | basic | value(T) | struct-with-refs(T) | slice | map | array | interface | pointer-to-empty-struct(T) | sync.Pool | lock
+  writes : List String      -- assignments (variable, elements, fields), inc/dec, address taken, delete/clear/copy-into/append-to, pointer-receiver calls on a struct value, writes through aliases and through parameters of callees, returned references
+  calls : List String       -- methods called on it
+  guardedBy : String        -- the lock every function touching it takes first ("" = none)
+  deriving Repr, DecidableEq
+
+inductive VarClass where
+  | immutable   -- no write site anywhere in its package: every reader sees the initial value
+  | config      -- exported, no write site in its package; assignable by client code — the property
+                --   assumes clients assign it (if at all) before any operation starts
+  | guarded     -- every access is inside a critical section of the named lock (the logger registry)
+  | lock        -- the lock itself: only Lock/Unlock/RLock/RUnlock
+  | pool        -- a sync.Pool used only through Get/Put, under the ownership discipline
+  deriving Repr, DecidableEq
+
+/-- the class of a variable; `none` = does not fit any class (must be looked at) -/
+def classify (v : PkgVar) : Option VarClass :=
+  if v.kind == "sync.Pool" then
+    if v.writes.isEmpty && v.calls.all (fun c => c == "Get" || c == "Put") then some .pool else none
+  else if v.kind == "lock" then
+    if v.writes.isEmpty && v.calls.all (fun c => c == "Lock" || c == "Unlock" || c == "RLock" || c == "RUnlock") then some .lock else none
+  else if v.guardedBy != "" then some .guarded
+  else if !v.writes.isEmpty then none
+  else if v.exported && v.kind != "error-value" then some .config
+  else some .immutable
+
+def PkgVar.qname (v : PkgVar) : String := v.pkg ++ "." ++ v.name
+
 /-- a sequence of operations; `none` when one of them is not possible -/
 def varRun {α : Type} (v : SharedVar α) : List (VarOp α) → Option (SharedVar α)
   | [] => some v
